@@ -23,7 +23,8 @@ func init() {
 			"R8 every recorded site is rewritten; R9 what a metavariable captures is the code at the matched position — every matcher hands its sub-matchers projections (Elem / Field / Index / list elements) of its own candidate, never a rebuilt value (parentheses looked through, reflect.ValueOf of a part). " +
 			"NOT decided: that the instantiation is textually the '+' pattern (go/printer), position bookkeeping, which sites are chosen." +
 			" R11 a half-applied change is never emitted (a failed Change.Replace ends the file in the command and the library); R8 also: matches are replaced innermost first (F15)." +
-			" R12 the text kept of a patch line is not a window into a buffered reader's buffer: the result of bufio.Scanner.Bytes / Reader.ReadSlice / ReadLine / Peek (and Bytes / Next of a bytes.Buffer that the same function rewinds) is only inspected, converted or copied — never stored in a field other than the reader's own current-line cache, a slice element, a map or a channel, nor returned to a caller that does so.",
+			" R12 the text kept of a patch line is not a window into a buffered reader's buffer: the result of bufio.Scanner.Bytes / Reader.ReadSlice / ReadLine / Peek (and Bytes / Next of a bytes.Buffer that the same function rewinds) is only inspected, converted or copied — never stored in a field other than the reader's own current-line cache, a slice element, a map or a channel, nor returned to a caller that does so." +
+			" R13 both compilers of a change are given the declaration table compileMeta returned.",
 		Trusted:     commonTrusted,
 		Assumptions: commonAssumptions,
 	})
